@@ -53,7 +53,7 @@ deriving Repr, Inhabited
 
 def isNumericChar (c : Char) : Bool := (c.isDigit) || c == '.'
 
-def closerOf (c : Char) : Char := if c == '(' then ')' else if c == '[' then ']' else c
+def closerOf (c : Char) : Char := if c == '(' then ')' else if c == '[' then ']' else if c == '{' then '}' else c
 
 /-- emit the pending token if non-empty and start a fresh one (the recurring `if token: yield token; token = Token()`) -/
 def LexState.flush (s : LexState) : LexState :=
@@ -73,11 +73,13 @@ def lexStep (s : LexState) (i : Nat) (ci : CharInfo) : Except LexErr LexState :=
       if s.tok.nonempty then
         if !rest.isEmpty then .ok { s with qc := rest, tok := s.tok.update c i }
         else .ok { s with qc := rest, out := s.tok :: s.out, tok := Tok.fresh }
+      else if rest.isEmpty then .ok { s with qc := rest, tok := Tok.fresh }
       else .ok { s with qc := rest }
     else if c == top then
       .ok { s with qc := rest, tok := s.tok.update c i }
     else
-      let qc' := if (c == '`' || c == '(' || c == '[') && (top == '}' || top == ')' || top == ']')
+      let qc' := if (c == '`' || c == '(' || c == '[' || c == '{' || c == '"' || c == '\'')
+                      && (top == '}' || top == ')' || top == ']')
                  then closerOf c :: s.qc else s.qc
       .ok { s with qc := qc', tok := s.tok.update c i }
   | [] =>
